@@ -245,12 +245,75 @@ class Program:
         from . import terms as _T
         _T.PACKAGE_HEADS.update(fi.short for fi in self.functions.values())
         self.attr_domains = self._attr_domains()
+        self.attr_types = self._attr_types()
         _T.LIST_ATTRS.clear()
         _T.LIST_ATTRS.update(self._list_attrs())
         _T.NOTNONE_KEYS.clear()
         _T.NOTNONE_ITEMS.clear()
         _T.NOTNONE_CALLS.clear()
         _T.NOTNONE_CALLS.update(fi.short for fi in self.functions.values() if _returns_not_none(fi.node))
+
+    def _resolve_class_expr(self, m, node):
+        """the package class a constructor expression `Name(...)` / `module.Name(...)` refers to, through the module's imports"""
+        parts = []
+        n = node
+        while isinstance(n, ast.Attribute):
+            parts.append(n.attr)
+            n = n.value
+        if not isinstance(n, ast.Name):
+            return None
+        parts.append(n.id)
+        parts.reverse()
+        if len(parts) == 1 and parts[0] in m.classes:
+            return m.classes[parts[0]]
+        imp = m.imports.get(parts[0])
+        if imp is None:
+            return None
+        target = imp[1] if imp[0] == 'module' else f'{imp[1]}.{imp[2]}'
+        if len(parts) == 2 and target in self.modules:
+            return self.modules[target].classes.get(parts[1])
+        if len(parts) == 1 and imp[0] != 'module':
+            return self.classes.get(target)
+        return None
+
+    def _attr_types(self):
+        """class qual -> {attribute: ClassInfo} for attributes of `self` whose every store in the class is a call of the
+        constructor of one package class (self.bg_x = data_stream.BackgroundDataStream(...))"""
+        out = {}
+        for ci in self.classes.values():
+            seen = {}
+            for mth in ci.methods.values():
+                for n in ast.walk(mth.node):
+                    tgts = n.targets if isinstance(n, ast.Assign) else [n.target] if isinstance(n, (ast.AugAssign, ast.AnnAssign)) else []
+                    for t in tgts:
+                        for x in ast.walk(t):
+                            if isinstance(x, ast.Attribute) and isinstance(x.ctx, ast.Store) and isinstance(x.value, ast.Name) \
+                                    and x.value.id == 'self':
+                                c = None
+                                if x is t and isinstance(n, ast.Assign) and isinstance(n.value, ast.Call):
+                                    c = self._resolve_class_expr(ci.module, n.value.func)
+                                seen.setdefault(x.attr, []).append(c)
+            types = {a: cs[0] for a, cs in seen.items() if cs and cs[0] is not None and all(c is cs[0] for c in cs)}
+            if types:
+                out[ci.qual] = types
+        return out
+
+    def returns_self_attr(self, fi):
+        """the attribute name when every `return` of the method is `return self.<that attribute>` (DataStream.get_samples
+        returns self.v): the value of a call that is not analysed further is then a read of that attribute after the call"""
+        if not isinstance(fi.node, ast.FunctionDef) or not fi.node.args.args:
+            return None
+        me = fi.node.args.args[0].arg
+        names = set()
+        for n in ast.walk(fi.node):
+            if isinstance(n, (ast.Yield, ast.YieldFrom)):
+                return None
+            if isinstance(n, ast.Return):
+                v = n.value
+                if not (isinstance(v, ast.Attribute) and isinstance(v.value, ast.Name) and v.value.id == me):
+                    return None
+                names.add(v.attr)
+        return names.pop() if len(names) == 1 else None
 
     def _list_attrs(self):
         """attribute names whose every store in the package assigns a list (literal, comprehension, list()/sorted() call):
